@@ -8,6 +8,7 @@ import (
 	"os"
 	"strings"
 	"sync"
+	"sync/atomic"
 	"testing"
 	"time"
 
@@ -467,3 +468,71 @@ func TestC19PeerSyncRaces(t *testing.T) {
 }
 
 var _ = hex.EncodeToString
+
+// ---- scenario: the rpc watcher's csv path (matured outputs, failing / slow callbacks, concurrent blocks) ----
+
+type csvRaceRPC struct {
+	deep map[string]bool
+}
+
+func (r *csvRaceRPC) GetBlockHeight() (uint64, error) { return 5000, nil }
+func (r *csvRaceRPC) GetTxOut(txid string, _ uint32) (*txwatcher.TxOutResp, error) {
+	if r.deep[txid] {
+		return &txwatcher.TxOutResp{BestBlockHash: "h5000", Confirmations: 2000}, nil
+	}
+	return &txwatcher.TxOutResp{BestBlockHash: "h5000", Confirmations: 3}, nil
+}
+func (r *csvRaceRPC) GetBlockHash(h uint32) (string, error) { return fmt.Sprintf("h%d", h), nil }
+func (r *csvRaceRPC) GetRawtransactionWithBlockHash(string, string) (string, error) {
+	return "", fmt.Errorf("not found")
+}
+
+func TestC19RpcCsvRaces(t *testing.T) {
+	col := stats.Get("C19.rpc-csv")
+	rapid.Check(t, func(t *rapid.T) {
+		rpc := &csvRaceRPC{deep: map[string]bool{}}
+		ctx, cancel := context.WithCancel(context.Background())
+		defer cancel()
+		w := txwatcher.NewBlockchainRpcTxWatcher(ctx, rpc, 3)
+		var failsLeft atomic.Int32
+		failsLeft.Store(int32(rapid.IntRange(0, 3).Draw(t, "callbackFailures")))
+		slow := rapid.SampledFrom([]int{0, 200, 2000}).Draw(t, "callbackMicros")
+		w.AddCsvCallback(func(string) error {
+			if slow > 0 {
+				time.Sleep(time.Duration(slow) * time.Microsecond)
+			}
+			if failsLeft.Add(-1) >= 0 {
+				return fmt.Errorf("store is busy")
+			}
+			return nil
+		})
+		nreg := rapid.IntRange(1, 3).Draw(t, "registrations")
+		var threads [][]op
+		for i := 0; i < nreg; i++ {
+			id := fmt.Sprintf("swap%d", i)
+			rpc.deep["tx"+id] = rapid.IntRange(0, 3).Draw(t, "matured") != 0
+			th := []op{{name: "add-csv", delay: rapid.SampledFrom([]int{0, 100, 1000}).Draw(t, "d1"), run: func() { w.AddWaitForCsvTx(id, "tx"+id, 0, 100, 1008, nil) }}}
+			for k, n := 0, rapid.IntRange(0, 2).Draw(t, "more"); k < n; k++ {
+				switch rapid.SampledFrom([]string{"add-csv", "claimed", "handle"}).Draw(t, "next") {
+				case "add-csv":
+					th = append(th, op{name: "add-csv", delay: 300, run: func() { w.AddWaitForCsvTx(id, "tx"+id, 0, 100, 1008, nil) }})
+				case "claimed":
+					th = append(th, op{name: "claimed", delay: 500, run: func() { w.TxClaimed([]string{id}) }})
+				case "handle":
+					th = append(th, op{name: "handle", delay: 200, run: func() { _ = w.HandleCsvTx(5000) }})
+				}
+			}
+			threads = append(threads, th)
+		}
+		for i, n := 0, rapid.IntRange(1, 3).Draw(t, "blockThreads"); i < n; i++ {
+			threads = append(threads, []op{
+				{name: "handle", delay: rapid.SampledFrom([]int{0, 150, 700}).Draw(t, "d2"), run: func() { _ = w.HandleCsvTx(5000) }},
+				{name: "handle", delay: 300, run: func() { _ = w.HandleCsvTx(5001) }},
+			})
+		}
+		runProgram(threads)
+		time.Sleep(5 * time.Millisecond)
+		d := describe(threads)
+		col.Case(strings.Join(d, "|")+fmt.Sprintf("f%d s%d", failsLeft.Load(), slow), true, d)
+	})
+}
